@@ -89,7 +89,11 @@ pub fn install_controller(
         .ok()
         .and_then(|s| s.parse().ok())
         .unwrap_or(LIVELOCK_BUDGET);
+    let trace = std::env::var_os("VERIF_TRACE_HOOKS").is_some();
     set_controller(Some(Rc::new(move |tag: &'static str, kind: PointKind| {
+        if trace {
+            eprintln!("      hook {tag} {kind:?} mode={:?}", mode.get());
+        }
         *stats.reached.borrow_mut().entry(tag).or_insert(0) += 1;
         let total = stats.total.get() + 1;
         stats.total.set(total);
